@@ -335,14 +335,17 @@ func (cp *MultihashPrimary) flushBlock(key []byte, value []byte) (types.Work, er
 			return 0, fmt.Errorf("creating primary file overwrites existing, check file size, gc and path (maxFileSize=%d) (path=%s)", cp.maxFileSize, primaryPath)
 		}
 
+		// Write buffered data to the current file before creating the next
+		// one. Only the last primary file is checked for an incomplete record
+		// when the primary is opened, so no older file may be left with one.
+		vhook.Point("mh.roll.flushOld")
+		if err := cp.writer.Flush(); err != nil {
+			return 0, fmt.Errorf("cannot write to primary file %s: %w", cp.file.Name(), err)
+		}
 		vhook.Point("mh.roll.create")
 		file, err := os.OpenFile(primaryPath, os.O_RDWR|os.O_APPEND|os.O_CREATE, 0o644)
 		if err != nil {
 			return 0, fmt.Errorf("cannot open new primary file %s: %w", primaryPath, err)
-		}
-		vhook.Point("mh.roll.flushOld")
-		if err = cp.writer.Flush(); err != nil {
-			return 0, fmt.Errorf("cannot write to primary file %s: %w", cp.file.Name(), err)
 		}
 
 		cp.file.Close()
